@@ -9,18 +9,20 @@ Every operation that consults the index therefore returns the receiver too (with
 | Go (types/hashtype.go)                              | Lean                                   |
 |-----------------------------------------------------|----------------------------------------|
 | `Hash{entries, index}`                    :31-36    | `Hash`                                 |
-| `BuildHash` / `WrapHash` / `WrapHash2`    :587-603  | `Hash.wrap` (no check for equal keys)  |
-| `valueIndex`                              :1421     | `buildIndex`, `Hash.valueIndex`        |
-| `Delete`                                  :806-813  | `Hash.delete`                          |
-| `DeleteAll`                               :815-833  | `Hash.deleteAll`                       |
-| `get` / `Get` / `Get2` / `Get4` / `Get5`  :1054-1113| `Hash.get` (`Get4`: `key (str s)` = the raw string, C07) |
-| `IncludesKey` / `IncludesKey2`            :1115-1123| `Hash.includesKey`                     |
-| `Keys` / `Values` / `Len` / `At` / `Each*`:1133-1143, 799, 847 | `Hash.keys` / `values` / `len` / `atIdx` / `entries` |
-| `Merge` / `mergeEntries`                  :1145-1172| `Hash.merge` / `mergeEntries`          |
-| `NewMutableHash` / `PutAll` / `Put`       :1432-1447| `Hash.wrap []` / `Hash.putAll` / `Hash.putM` |
+| `BuildHash` / `WrapHash` / `WrapHash2`    :594-610  | `Hash.wrap` (no check for equal keys)  |
+| `valueIndex`                              :1430     | `buildIndex`, `Hash.valueIndex`        |
+| `Delete`                                  :813-820  | `Hash.delete`                          |
+| `DeleteAll`                               :822-840  | `Hash.deleteAll`                       |
+| `get` / `Get` / `Get2` / `Get4` / `Get5`  :1061-1120| `Hash.get` (`Get4`: `key (str s)` = the raw string, C07) |
+| `IncludesKey` / `IncludesKey2`            :1122-1130| `Hash.includesKey`                     |
+| `Keys` / `Values` / `Len` / `At` / `Each*`:1140-1150, 806, 854 | `Hash.keys` / `values` / `len` / `atIdx` / `entries` |
+| `Merge` / `mergeEntries`                  :1152-1179| `Hash.merge` / `mergeEntries`          |
+| `NewMutableHash` / `PutAll` / `Put`       :1441-1470| `Hash.wrap []` / `Hash.putAll` / `Hash.putM` |
 | parser `{k => v, …}` → `BasicCollector.AddHash` → `BuildHash` (types/parser.go:271, basiccollector.go:36) | `Hash.wrap` |
 | parser `[k => v, …]` → `convertHashEntries` → `WrapHash` (types/parser.go:356)                           | `Hash.wrap` |
 
+Not modelled: the cached inferred types (`reducedType`, `detailedType`; `PutAll` resets both together with the
+index) and `MutableHashValue.freeze` (used by `Hash.new(tree)` only) — they do not influence any query of C09.
 `none` results are Go runtime faults (slice index out of range): reachable only when the index disagrees
 with the entries.  Core Lean only.
 -/
